@@ -145,7 +145,7 @@ CHECKS = {
     },
     'C09': {
         'level': 'exploration',
-        'technique': 'runtime monitoring: recording (and raising) output callbacks plus post-return probes of Test.state, TEST_INSTANCES and the openhtf logger over exit paths and execute() histories',
+        'technique': 'runtime monitoring: recording (and raising) output callbacks plus post-return probes of Test.state, TEST_INSTANCES and the openhtf logger over exit paths and execute() histories; two execute() calls racing on one Test with the first held at each line (sys.monitoring); one abort at every line reached by the abort program family',
         'text': ('19 exit-path programs (vacuous, all-skip, exception, STOP, time-out, terminal test_start, plug constructor '
                  'failure, executor failure, ...) x 6 histories (single, twice, thrice, overlapping execute() from a phase body and '
                  'from a second thread, execute after an aborted run) x 1-4 callbacks x raising subsets, plus seeded random '
@@ -157,7 +157,7 @@ CHECKS = {
     },
     'C03': {
         'level': 'exploration',
-        'technique': 'runtime trace monitoring: per-group predicates over the body event log and recorded setup results; workloads = enumerated behaviour assignments on nesting skeletons, seeded group-rich programs, and sys.monitoring pause-point schedules with one operator abort',
+        'technique': 'runtime trace monitoring: per-group predicates over the body event log and recorded setup results; workloads = enumerated behaviour assignments on nesting skeletons, seeded group-rich programs, and sys.monitoring pause-point schedules with one operator abort (a framework thread held while the abort completes, and the aborting thread held at each line of its own path)',
         'text': ('(a) six nesting skeletons (group in sequence / subtest / branch / group main / group teardown / subtest in '
                  'main) with every single and (sampled in quick, all in thorough) pair of non-default behaviours over their '
                  'phases, plus seeded random group-rich programs, run for real (time-outs under the virtual clock); (b) eight '
@@ -172,7 +172,7 @@ CHECKS = {
     },
     'C04': {
         'level': 'exploration',
-        'technique': 'runtime trace monitoring under controlled schedules: sys.monitoring pause points over the executor/phase/main threads with operator actions (abort call, real SIGINT in a child process, SIGINT handler on the main thread at a line of execute(), second abort), plus yield-injection stress',
+        'technique': 'runtime trace monitoring under controlled schedules: sys.monitoring pause points over the executor/phase/main threads with operator actions (abort call, real SIGINT in a child process, SIGINT handler on the main thread at a line of execute(), second abort; the aborting thread itself held at each line of its path; every reached line covered by one simple abort), plus yield-injection stress',
         'text': ('ten programs (test_start, nested groups, subtests, repeats, failing main/teardown, branches, a body that only '
                  'ends when killed, long teardowns, plugs) are run once per sampled (quick) or every (thorough, hits <= 3) '
                  'reached (thread role, function, line, hit) with that thread paused while the action completes; trace '
@@ -227,7 +227,7 @@ CHECKS = {
     },
     'C19': {
         'level': 'exploration',
-        'technique': 'runtime history monitoring: uniquely numbered messages emitted through run, foreign and framework loggers are looked up in each run\'s log_records (exactly once, per-thread order, fields, redaction, no foreign ids); sys.monitoring pause points in logs.py while another run ends/starts/logs; yield-injection stress; handler counts',
+        'technique': 'runtime history monitoring: uniquely numbered messages emitted through run, foreign and framework loggers are looked up in each run\'s log_records (exactly once, per-thread order, fields, redaction, no foreign ids); sys.monitoring pause points in logs.py (the held thread logs / ends a run / starts a run) while another run ends/starts/logs; whole runs with the executor thread held at each line and a tap on the openhtf logger; yield-injection stress; handler counts',
         'text': ('capture layer: 8 uid shapes x 11 logger kinds (own / child / phase / plug loggers, framework loggers, '
                  'another run\'s loggers, look-alike and prefix-sharing names) and 14 message/argument shapes x 3 MAC spellings '
                  '(MAC in msg, in args, split across args, in non-str and mapping args, twice); whole Test runs through '
@@ -256,7 +256,7 @@ CHECKS = {
     },
     'C14': {
         'level': 'exploration',
-        'technique': 'runtime history monitoring under controlled schedules: reactive fake ADB device with uniquely tagged bytes; per-stream byte logs and device-side message log judged after runs in which one host thread is held at a chosen line (sys.monitoring), under yield-injection stress, and under every device-side merge order',
+        'technique': 'runtime history monitoring under controlled schedules: reactive fake ADB device with uniquely tagged bytes; per-stream byte logs and device-side message log judged after runs in which one host thread is held at a chosen line (sys.monitoring), under yield-injection stress, under every device-side merge order, and with the device withholding an OKAY while writers retry (device-side count of un-OKAYed WRTEs)',
         'text': ('1-3 streams are opened concurrently; each has a reader and a writer thread (host payload up to 400 bytes with '
                  'maxdata 64); the device answers OPEN with OKAY followed at once by all its WRTE messages and closes after it '
                  'received the host bytes; schedules: one thread role held 150 ms at a sampled (quick: 60 per scenario) or every '
